@@ -756,7 +756,20 @@ impl Object {
 			item.canonicalize_with(buffer);
 		}
 
-		self.sort()
+		// RFC 8785 orders members by their keys compared as sequences of
+		// UTF-16 code units, which differs from the `str` order for keys
+		// containing both U+E000..U+FFFF and non-BMP characters.
+		self.entries.sort_by(|a, b| {
+			a.key
+				.encode_utf16()
+				.cmp(b.key.encode_utf16())
+				.then_with(|| a.value.cmp(&b.value))
+		});
+		self.indexes.clear();
+
+		for i in 0..self.entries.len() {
+			self.indexes.insert(&self.entries, i);
+		}
 	}
 
 	/// Puts this JSON object in canonical form according to
